@@ -212,7 +212,8 @@ func (c *zzCtx) run(f Form) (accepted bool, panicked bool) {
 	panicked = vn.Try(func() {
 		err = f.typecheckForm(c.gamma, c.shadow, c.prov.T, c.env.Env, c.sigma, c.genv)
 	})
-	return err == nil, panicked
+	// an internal panic is not an acceptance (C09 reports it; C07 must not read it as a verdict)
+	return err == nil && !panicked, panicked
 }
 
 // handedGamma checks the Γ recorded by probe p: exactly the original entries except `consumed`,
